@@ -117,6 +117,31 @@ pub struct Act {
 
 pub struct Exchange;
 
+/// A valid swap path found by walking the market list from `start` (real tokens only): up to `hops` markets,
+/// no market twice, no single-token market; `first` forces the first market when it can convert `start`.
+/// Returns the path and the token it ends in.
+fn walk(p: &mut Rng, start: usize, hops: usize, n_markets: usize, first: Option<usize>) -> (Vec<usize>, usize) {
+    let mut cur = start;
+    let mut path = vec![];
+    for h in 0..hops {
+        let mut cands: Vec<usize> = (0..n_markets).filter(|m| !path.contains(m) && MARKETS[*m].1 != MARKETS[*m].2 && (MARKETS[*m].1 == cur || MARKETS[*m].2 == cur)).collect();
+        if h == 0 {
+            if let Some(f) = first {
+                if cands.contains(&f) {
+                    cands = vec![f];
+                }
+            }
+        }
+        if cands.is_empty() {
+            break;
+        }
+        let m = *p.pick(&cands);
+        cur = if MARKETS[m].1 == cur { MARKETS[m].2 } else { MARKETS[m].1 };
+        path.push(m);
+    }
+    (path, cur)
+}
+
 fn kinds() -> [OrderKind; 6] {
     [OrderKind::MarketIncrease, OrderKind::MarketDecrease, OrderKind::MarketSwap, OrderKind::LimitIncrease, OrderKind::LimitDecrease, OrderKind::LimitSwap]
 }
@@ -290,32 +315,26 @@ impl Scenario for Exchange {
                     let long = if both || p.bool() { p.log_u64(200_000_000_000) } else { 0 };
                     let short = if both || long == 0 { p.log_u64(30_000_000_000) } else { 0 };
                     let with_paths = cfg.big_world && p.chance(1, 3);
-                    Step::Deposit {
-                        user,
-                        market,
-                        long,
-                        short,
-                        min_mt: if p.chance(1, 6) { u64::MAX / 2 } else { 0 },
-                        long_path: if with_paths { path(&mut p, n_markets) } else { vec![] },
-                        short_path: if with_paths { path(&mut p, n_markets) } else { vec![] },
-                        lt: if with_paths { Some(p.usize(0, n_tokens - 1)) } else { None },
-                        st: if with_paths { Some(p.usize(0, n_tokens - 1)) } else { None },
-                    }
+                    let mdef = MARKETS[market];
+                    // 2/3 of the pathed deposits pay with a token from which a valid path leads to the pool token
+                    // (the walk is done from the pool token and reversed), 1/3 are arbitrary (mostly invalid)
+                    let valid = p.chance(2, 3);
+                    let hops = p.usize(1, 2);
+                    let (lp, lt) = if with_paths && valid { let (mut w, t) = walk(&mut p, mdef.1, hops, n_markets, None); w.reverse(); (w, Some(t)) } else if with_paths { (path(&mut p, n_markets), Some(p.usize(0, n_tokens - 1))) } else { (vec![], None) };
+                    let (sp, st) = if with_paths && valid && mdef.1 != mdef.2 { let (mut w, t) = walk(&mut p, mdef.2, hops, n_markets, None); w.reverse(); (w, Some(t)) } else if with_paths && !valid { (path(&mut p, n_markets), Some(p.usize(0, n_tokens - 1))) } else { (vec![], None) };
+                    Step::Deposit { user, market, long, short, min_mt: if p.chance(1, 6) { u64::MAX / 2 } else { 0 }, long_path: lp, short_path: sp, lt, st }
                 }
                 22..=29 => {
                     n_actions += 1;
                     let with_paths = cfg.big_world && p.chance(1, 3);
-                    Step::Withdraw {
-                        user,
-                        market,
-                        bps: *p.pick(&[1u16, 100, 2500, 5000, 10_000]),
-                        min_long: if p.chance(1, 6) { u64::MAX / 2 } else { 0 },
-                        min_short: 0,
-                        long_path: if with_paths { path(&mut p, n_markets) } else { vec![] },
-                        short_path: if with_paths { path(&mut p, n_markets) } else { vec![] },
-                        lt: if with_paths { Some(p.usize(0, n_tokens - 1)) } else { None },
-                        st: if with_paths { Some(p.usize(0, n_tokens - 1)) } else { None },
-                    }
+                    let mdef = MARKETS[market];
+                    let valid = p.chance(2, 3);
+                    let hops = p.usize(1, 3);
+                    // the path may start with the withdrawal's own market (funds leave it and come back converted)
+                    let own_first = if p.chance(1, 3) { Some(market) } else { None };
+                    let (lp, lt) = if with_paths && valid { let (w, t) = walk(&mut p, mdef.1, hops, n_markets, own_first); (w, Some(t)) } else if with_paths { (path(&mut p, n_markets), Some(p.usize(0, n_tokens - 1))) } else { (vec![], None) };
+                    let (sp, st) = if with_paths && valid && mdef.1 != mdef.2 { let (w, t) = walk(&mut p, mdef.2, hops, n_markets, own_first); (w, Some(t)) } else if with_paths && !valid { (path(&mut p, n_markets), Some(p.usize(0, n_tokens - 1))) } else { (vec![], None) };
+                    Step::Withdraw { user, market, bps: *p.pick(&[1u16, 100, 2500, 5000, 10_000]), min_long: if p.chance(1, 6) { u64::MAX / 2 } else { 0 }, min_short: 0, long_path: lp, short_path: sp, lt, st }
                 }
                 30..=33 => {
                     n_actions += 1;
@@ -360,6 +379,22 @@ impl Scenario for Exchange {
                         let lev = *p.pick(&[1u64, 2, 5, 10, 20, 50, 90, 150]);
                         let size_usd = (collat_usd_cents / 100).max(1) * lev;
                         let dec_kind = kind == 1 || kind == 4;
+                        // position orders with a valid swap path: increases pay with another token that is swapped
+                        // into the collateral token, decreases swap the output into another token (the path may
+                        // start with the position's own market)
+                        if cfg.big_world && p.chance(1, 4) {
+                            let hops = p.usize(1, 2);
+                            let own_first = if p.chance(1, 3) { Some(market) } else { None };
+                            let (mut w, t) = walk(&mut p, ctoken, hops, n_markets, own_first);
+                            if !w.is_empty() {
+                                let (tin, tout) = if dec_kind { (None, Some(t)) } else { w.reverse(); (Some(t), None) };
+                                let amount = if dec_kind { 0 } else { (collat_usd_cents as u128 * 10u128.pow([9u32, 6, 8, 8][t]) / cents[t].max(1) as u128) as u64 };
+                                steps.push(Step::Prices { cents: cents.clone(), spread_bps: 2 });
+                                steps.push(Step::Order { user, market, kind, is_long: p.bool(), collat_long, collateral: amount, size_usd: if dec_kind { u64::MAX / 1_000_000_000 } else { size_usd }, path: w, min_output: None, acceptable_cents: None, tin, tout });
+                                steps.push(Step::Execute { slot: n_actions - 1, throw: p.bool() });
+                                continue;
+                            }
+                        }
                         Step::Order {
                             user,
                             market,
